@@ -136,8 +136,8 @@ void h_doSend(void)
     __CPROVER_assert(!TLS_HANDSHAKING(&s0) || (G_send_calls == sc0 && G_sslw_calls == ss0 && G_written == w0 && s->wq.n == s0.wq.n + 1),
                      "S3 TLS handshake in progress: nothing is written (no clear text), the payload is queued");
     __CPROVER_assert(s->wq.n == 0 || (EPOLLOUT_ARMED(self, s) && s->wantWrite), "S4 queue non-empty => EPOLLOUT registered for the session's fd (no lost re-arm)");
-    __CPROVER_assert(!E0._config.closeOnBackpressure || TLS_HANDSHAKING(&s0) || s->wq.n <= E0._config.maxWriteQueue,
-                     "S5 still open (and not in the TLS handshake, where everything is parked) => the queue is within maxWriteQueue");
+    __CPROVER_assert(!E0._config.closeOnBackpressure || TLS_HANDSHAKING(&s0) || s->wq.n <= IORA_MAX(E0._config.maxWriteQueue, 1),
+                     "S5 still open => the queue is within max(maxWriteQueue, 1) (a payload that was tried on the empty queue is always kept; the TLS handshake parks everything)");
     __CPROVER_assert(s->wq.n <= s0.wq.n + 1, "S5b at most this one buffer is added");
     __CPROVER_assert(SESSION_FRAME_OK(s, s0), "FR session fields outside the write state are unchanged");
     if (s->wq.n > 0) { IORA_CANARY("h_doSend: queued"); } else { IORA_CANARY("h_doSend: written completely"); }
